@@ -28,6 +28,8 @@ type memConn struct {
 	readFail  int // fail the k-th read and later; -1: never
 	closes    int
 	pushed    int // number of client chunks handed to the transport so far
+	useTurn   bool
+	turn      int
 	addr      string
 	sslFirst  bool
 	encrypted bool // the server's output is TLS ciphertext: it cannot be parsed by the recorder
@@ -95,6 +97,9 @@ func (c *memConn) Close() error {
 		return net.ErrClosed
 	}
 	c.closed = true
+	// the server closes the connection when it is done with it: through the accept loop that is the
+	// only end-of-serving signal there is
+	c.finished = true
 	c.cond.Broadcast()
 	return nil
 }
@@ -108,7 +113,18 @@ func (c *memConn) outLen() int {
 func (c *memConn) outLenTurn() (int, int) {
 	c.mu.Lock()
 	defer c.mu.Unlock()
+	if c.useTurn {
+		return len(c.out), c.turn
+	}
 	return len(c.out), c.pushed
+}
+
+// setTurn fixes the turn number reported with events: a client message that travels as several
+// transport writes (TLS records) is still one turn
+func (c *memConn) setTurn(t int) {
+	c.mu.Lock()
+	c.useTurn, c.turn = true, t
+	c.mu.Unlock()
 }
 
 func (c *memConn) push(seg []byte) {
